@@ -137,12 +137,12 @@ CHECKS = {
     'C12': ('E3-thread-scheduler',
             'stateless model checking of real threads: all schedules within a preemption bound at bytecode '
             'granularity (sys.monitoring), each response compared with the sequential response',
-            'All 36 unordered pairs of 8 request kinds on two real threads under every schedule with <=1 preemption '
+            'All 66 unordered pairs of 11 request kinds (incl. a second Application in the process and a path with a GET-only and a POST-only route) on two real threads under every schedule with <=1 preemption '
             '(thorough: <=2), five triples with <=1 preemption and two quadruples with all completion orders; '
             'scheduling points are all non-thread-local bytecode instructions of clastic, its generated chains and '
             'the harness bodies; every thread must receive exactly the response its request gets alone (unique token '
             'echoed through request object, URL parameters, provided values, dispatch state, redirect Location, error '
-            'text) and request ids must be pairwise distinct. Interference needs a specific interleaving, which is '
+            'text, compared with a fresh application\'s sequential answer) and request ids and guids must be unique within the process. Interference needs a specific interleaving, which is '
             'exactly what bounded exhaustive scheduling enumerates.',
             'Trusted: the scheduler (replay divergence is a hard error; one schedule is replayed twice per run); '
             'werkzeug/stdlib execute atomically between points; PYTHONHASHSEED=0.',
@@ -177,8 +177,7 @@ CHECKS = {
             'generated tree; deviation-bounded injection of filesystem answers at every call position',
             'Every path of <=3 segments (4 for three configurations; thorough 4/5) over a 19-symbol segment alphabet '
             '(existing names, ., .., empty, ..., sibling and parent names incl. one sharing the root\'s prefix, pieces of '
-            'the absolute path, encoded-looking names) under 18 configurations (prefix x slash mode x one/two search '
-            'paths, an overlapping fallback static application behind), judged by the model (exact bytes, length, '
+            'the absolute path, encoded-looking names) under 20 configurations (prefix x slash mode x one/two search paths, also listed in non-alphabetical order, an overlapping fallback static application behind), judged by the model (exact bytes, length, '
             'Last-Modified, type; escapes refused; secrets never disclosed; plain paths served); conditional requests; '
             'and for 11 request kinds every single (thorough: every pair of) filesystem call position x '
             '{ENOENT, EACCES, EIO, EISDIR, isfile->False}.',
@@ -188,8 +187,7 @@ CHECKS = {
     'C15': ('E1-product-enumerator',
             'bounded-exhaustive enumeration of middleware stacks x request catalogue; differential comparison with '
             'the same application without the stack',
-            'All singles, ordered pairs and ordered triples (thorough: quadruples) of the 10 built-in middlewares in '
-            'default configuration on a scenario application producing every response kind (Response with 7 body '
+            'All singles, ordered pairs and ordered triples (thorough: quadruples) of the 11 built-in middleware configurations (default configurations plus a context processor whose defaults collide with falsy endpoint values) on a scenario application producing every response kind (Response with 7 body '
             'kinds, rendered context, streamed, endpoint redirect, slash redirect, raised/returned 4xx, raised 5xx, '
             'non-breaking fall-through, uncaught exception, unknown URL, wrong method, HEAD, POST form) x 10 '
             'Accept-Encoding values x 3 query strings; status, decoded body and Location must equal the baseline; '
